@@ -19,6 +19,8 @@ LEN_FNS = ("slice::len", "Vec::len", "str::len", "String::len")
 def strip(t):
     while isinstance(t, tuple) and len(t) == 2 and (t[0] == "&" or t[1] == ".*"):
         t = t[1] if t[0] == "&" else t[0]
+    if isinstance(t, tuple) and len(t) == 2 and isinstance(t[1], str) and t[1].endswith(".*") and t[1] in (".0.*", ".1.*"):
+        return (t[0], t[1][:-2])
     return t
 
 
@@ -34,7 +36,13 @@ class Namer:
 
     def leaf(self, t):
         r = self.rename(t)
-        return r if r is not None else show(t)[:160]
+        if r is not None:
+            return r
+        txt = show(t)
+        if len(txt) <= 120:
+            return txt
+        import hashlib
+        return txt[:100] + "..#" + hashlib.sha1(repr(t).encode()).hexdigest()[:10]
 
 
 def add(a, b, kb=1):
@@ -50,6 +58,11 @@ class Lin:
 
     def len_lin(self, t):
         t = strip(t)
+        # the halves of split_at(_mut)(base, mid)
+        if isinstance(t, tuple) and len(t) == 2 and t[1] in (".0", ".1", ".0.*", ".1.*") and isinstance(t[0], tuple) and t[0] \
+                and isinstance(t[0][0], str) and re.search(r"split_at(_mut)?$", t[0][0]) and len(t[0]) == 3:
+            mid = self.lin(t[0][2])
+            return mid if t[1].startswith(".0") else add(self.len_lin(t[0][1]), mid, -1)
         if is_index(t):
             r = t[2]
             if isinstance(r, tuple):
@@ -64,7 +77,7 @@ class Lin:
                 if r[0] == "RangeToInclusive":
                     return add(self.lin(r[1]), {1: 1})
         if isinstance(t, tuple) and len(t) == 2 and isinstance(t[0], str) and \
-                re.search(r"(^|::)(to_vec|to_owned|into_vec|as_slice|as_mut_slice|as_ref|deref|deref_mut|as_bytes)$", t[0]):
+                re.search(r"(^|::)(to_vec|to_owned|into_vec|as_slice|as_mut_slice|as_ref|deref|deref_mut)$|^(String|str)::as_bytes$", t[0]):
             return self.len_lin(t[1])          # length-preserving views / copies
         return {self.namer.leaf(("len", t)): 1}
 
@@ -185,13 +198,16 @@ class Walker:
         self.prove("%s: end <= len in %s" % (nm, show(rng)[:60]), add(ln, hi, -1))
 
     # --- replay
-    def run(self, on_call=None):
+    def run(self, on_call=None, start=0, stop=None, with_ret=True):
+        """replay log[start:stop]; labels are resolved at the position of their use"""
         pa = self.pa
         cmps = {}
         pending = {}
-        for e in pa.log:
+        stop = len(pa.log) if stop is None else stop
+        for pos in range(start, stop):
+            e = pa.log[pos]
             if e[0] == "cmp":
-                a, b = C.expr_of(pa, e[3]), C.expr_of(pa, e[4])
+                a, b = C.expr_of(pa, e[3], 0, pos), C.expr_of(pa, e[4], 0, pos)
                 cmps[e[1]] = (e[2], a, b)
                 self.arith(a)
                 self.arith(b)
@@ -209,7 +225,7 @@ class Walker:
                         suffix = m.group(1)[len(lab):]
                         self.facts.extend(f(self, call, args, suffix, e[2]) or [])
             elif e[0] == "call":
-                args = C.expr_of(pa, e[2])
+                args = C.expr_of(pa, e[2], 0, pos)
                 nm = C.short(e[1])
                 if re.search(r"fmt::|Argument|hint::must_use|Error::new$|::fmt$", e[1]):
                     continue                    # formatting / error construction only carries values computed before
@@ -219,6 +235,11 @@ class Walker:
                     self.index_ok(nm, args[0], args[1])
                 elif re.search(r"copy_from_slice$|clone_from_slice$", e[1]) and len(args) == 2:
                     self.prove_eq("%s: equal lengths" % nm, add(self.L.len_lin(args[0]), self.L.len_lin(args[1]), -1))
+                elif re.search(r"slice::<impl \[.*\]>::split_at(_mut)?$", e[1]) and len(args) == 2:
+                    self.prove("%s: mid <= len" % nm, add(self.L.len_lin(args[0]), self.L.lin(args[1]), -1))
+                elif re.search(r"ByteOrder>::(write|read)_u(16|24|32|48|64|128)$", e[1]) and args:
+                    k = int(re.search(r"_u(\d+)$", e[1]).group(1)) // 8
+                    self.prove("%s: %d bytes available" % (nm, k), add(self.L.len_lin(args[0]), {1: -k}))
                 for rx, f in self.contracts:
                     if rx.search(e[1]):
                         self.facts.extend(f(self, e, args, None, None) or [])
@@ -226,6 +247,7 @@ class Walker:
                 if on_call is not None:
                     on_call(self, e, args)
             elif e[0] in ("write", "write-elem") and len(e) > 3:
-                self.arith(C.expr_of(pa, e[3]))
-        self.arith(C.expr_of(pa, pa.ret))
+                self.arith(C.expr_of(pa, e[3], 0, pos))
+        if with_ret:
+            self.arith(C.expr_of(pa, pa.ret))
         return self
